@@ -19,9 +19,11 @@ impl PeersStore {
 use std::net::SocketAddrV4 as A4;
 
 //@ ob: C20.O2
+//@ tier: quick
+//@ cap: 800
+//@ rss: 0.5
+//@ time: 12
 //@ unwindset_raw: memcmp.0:22
-//@ tier: thorough
-//@ cap: 1800
 //@ standins: lru
 //@ also: C03
 //@ desc: the peers store never exceeds its configured capacities: with max_peers_per_info_hash = 3, announcing 4 distinct peers on one info hash leaves exactly the 3 most recently announced (the first is evicted), re-announcing a known peer does not grow the set; with max_info_hashes = 1 a second info hash evicts the first
